@@ -1,4 +1,5 @@
 """C14 -- sorting is a content-preserving, idempotent canonicalization (scope: the comparators `sort` is built on)."""
+from vxlib.common import result_line
 import json
 
 from vxlib.common import Obligation, run
@@ -50,7 +51,7 @@ def check(ctx):
     b = ctx.native()
     rc, out, err, secs = run([b, 'api', 'sort3', '3'], timeout=900)
     ctx.t('native-enum', secs)
-    line = (out.strip().splitlines() or [''])[-1]
+    line = result_line(out)
     name = 'native/api-sort3'
     bound = 'all sets of 3 distinct AR-PACKAGE names [ab][ab012]{0,2} x 6 insertion orders'
     if line.startswith('OK'):
@@ -73,7 +74,7 @@ def check(ctx):
             f.write(d.hex() + '\n')
     rc, out, err, secs = run([b, 'api', 'sortdocs', p], timeout=1800)
     ctx.t('native-enum', secs)
-    line = (out.strip().splitlines() or [''])[-1]
+    line = result_line(out)
     name = 'native/api-sort-nested-documents'
     bound = '%d documents (own + repository fixtures that load strictly); every adjacent pair of sub-elements of every element whose type is not order-relevant is swapped once' % len(docs)
     if line.startswith('OK'):
